@@ -268,11 +268,20 @@ var hBodies = []string{
 	`null`, `{}`, `[]`, `1`, `"x"`, `{"query":null}`, `{"variables":[]}`, `{"query":1}`, `{"query":"{ me { name } }"`, ``,
 	`null"query":`, `{"query":"{ me { name } }","variables":null,"extensions":null}`, `{"query":"{ me { name } }","operationName":7}`,
 	`{"query":"{ me { name } }","variables":{"a":[1,{"b":null}]}}`, `  `, `{"query":"{ me { name } }"} trailing`,
+	// structurally valid requests that cannot be served: operation selection, operation kind, variables
+	`{"query":"query A { me { id } } query B { me { name } }"}`, `{"query":"query A { me { id } }","operationName":"B"}`,
+	`{"query":"fragment F on User { id }"}`, `{"query":"subscription S { ticks }"}`,
+	`{"query":"query Q($id: ID!) { user(id: $id) { name } }"}`, `{"query":"query Q($id: ID!) { user(id: $id) { name } }","variables":{"id":{"a":1}}}`,
+	`{"query":"mutation M { rename(name: \"x\") { id } }","operationName":"M"}`,
 }
 
 var hQueryStrings = []string{
 	`query=%7Bme%7Bname%7D%7D&variables=null`, `query=%7Bme%7Bname%7D%7D&variables=%5B%5D`, `query=%7Bme%7Bname%7D%7D&extensions=1`,
 	`query=%zz`, `query=%7Bme%7Bname%7D%7D&variables=%7B%22a%22%3A1%7D&extensions=%7B%7D`, ``, `variables=%7B`, `query=%7Bme%7Bname%7D%7D;x`,
+	// structurally valid requests that cannot be served over GET
+	`query=query+A+%7Bme%7Bid%7D%7D+query+B+%7Bme%7Bname%7D%7D`, `query=query+A+%7Bme%7Bid%7D%7D&operationName=B`, `query=fragment+F+on+User+%7Bid%7D`,
+	`query=mutation+M+%7Brename%28name%3A%22x%22%29%7Bid%7D%7D`, `query=subscription+S+%7Bticks%7D`,
+	`query=query+Q%28%24id%3AID%21%29%7Buser%28id%3A%24id%29%7Bname%7D%7D`, `query=query+Q%28%24id%3AID%21%29%7Buser%28id%3A%24id%29%7Bname%7D%7D&variables=%7B%22id%22%3A%7B%22a%22%3A1%7D%7D`,
 }
 
 // Harness_C10_bodies: malformed JSON bodies / query strings / form bodies on
